@@ -71,8 +71,10 @@ def strategy(tier):
     step = st.tuples(poke, cmd).map(list)
     wire = st.one_of(st.just([]), st.lists(st.integers(0, len(WIRE_LABELS) - 1), min_size=1, max_size=8))
     overlap = st.one_of(st.none(), st.none(), st.tuples(st.sampled_from([0, 10, 50, 100, 150, 250]), st.integers(0, 4)).map(list))
-    return st.builds(lambda s, w, h, k, ov: dict({"snapshot": s, "wire": w, "history": h, "stack": k}, **({"wc_overlap": ov} if ov and k == "async" else {})),
-                     st.integers(0, n - 1), wire, st.lists(step, min_size=1, max_size=10), st.sampled_from(["async", "async", "blocking"]), overlap)
+    pre = st.one_of(st.just(0), st.integers(0, 70), st.integers(54, 64))
+    return st.builds(lambda s, w, h, k, ov, pr: dict({"snapshot": s, "wire": w, "history": h, "stack": k}, **({"wc_overlap": ov} if ov and k == "async" else {}),
+                                                     **({"pre": pr} if pr else {})),
+                     st.integers(0, n - 1), wire, st.lists(step, min_size=1, max_size=10), st.sampled_from(["async", "async", "blocking"]), overlap, pre)
 
 
 # ------------------------------------------------------------------ the model spa
@@ -423,6 +425,8 @@ def _run_async(res, case, snap, pair, history, info):
                 if t.get_name() == "FACADE:Facade update":
                     t.cancel()   # from here on only the tested commands talk
             await W.sleep(0.3)
+            for _ in range(int(case.get("pre", 0))):
+                spa._protocol.get_and_increment_sequence_counter(True)   # a connection that has sent commands before (wrap at 255)
             pack_type = spa.pack_class.type
 
             async def settle():
@@ -503,6 +507,8 @@ def _run_sync(res, case, snap, pair, history, info):
         if fac.water_heater is None:
             raise SetupFailed("blocking facade was not built on connect")
         pack_type = spa.new_pack_class.type
+        for _ in range(int(case.get("pre", 0))):
+            spa.get_and_increment_sequence_counter(True)
 
         def settle():
             from geckolib.driver import GeckoPackCommandProtocolHandler
